@@ -31,7 +31,7 @@ RENDERS_CONTRIB = {None, "custom", "commented"}
 
 
 def generate(tier, seed):
-    n = 600 if tier == "quick" else 40000
+    n = 1200 if tier == "quick" else 40000
     per = 10
     return [{"k": k, "n": per} for k in range(n // per)]
 
